@@ -295,4 +295,148 @@ theorem safe_fromExisting (en : Enums) (b : Bytes) :
 
 end Log
 
+/-! ### patch lists -/
+namespace Patchlist
+
+theorem splitStrAcc_size (pat : Bytes) : ∀ (fuel : Nat) (l cur : Bytes) (acc : Array Bytes),
+    (splitStrAcc pat fuel l cur acc).size ≤ acc.size + fuel + 1 := by
+  intro fuel
+  induction fuel with
+  | zero => intro l cur acc; simp [splitStrAcc]
+  | succ f ih =>
+    intro l cur acc
+    unfold splitStrAcc
+    split
+    · simp only [Array.size_push]; omega
+    · next x r =>
+      split
+      · have := ih (List.drop pat.length (x :: r)) [] (acc.push cur.reverse)
+        simp only [Array.size_push] at this; omega
+      · have := ih r (x :: cur) acc; omega
+
+theorem splitStr_size (pat s : Bytes) : (splitStr pat s).size ≤ s.length + 2 := by
+  have := splitStrAcc_size pat (s.length + 1) s [] #[]
+  simp only [Array.size_empty] at this
+  unfold splitStr; omega
+
+/-- every piece is a piece of the input: no longer than what was still to be read plus the
+current piece -/
+theorem splitStrAcc_len (pat : Bytes) (L : Nat) : ∀ (fuel : Nat) (l cur : Bytes) (acc : Array Bytes),
+    (∀ x ∈ acc.toList, x.length ≤ L) → cur.length + l.length ≤ L →
+    ∀ x ∈ (splitStrAcc pat fuel l cur acc).toList, x.length ≤ L := by
+  intro fuel
+  induction fuel with
+  | zero =>
+    intro l cur acc hacc hcur x hx
+    simp only [splitStrAcc, Array.toList_push, List.mem_append, List.mem_singleton] at hx
+    rcases hx with hx | hx
+    · exact hacc x hx
+    · subst hx; simp only [List.length_reverse]; omega
+  | succ f ih =>
+    intro l cur acc hacc hcur
+    unfold splitStrAcc
+    have hpush : ∀ x ∈ (acc.push cur.reverse).toList, x.length ≤ L := by
+      intro x hx
+      simp only [Array.toList_push, List.mem_append, List.mem_singleton] at hx
+      rcases hx with hx | hx
+      · exact hacc x hx
+      · subst hx; simp only [List.length_reverse]; omega
+    split
+    · exact hpush
+    · next x r =>
+      split
+      · refine ih _ [] _ hpush ?_
+        simp only [List.length_nil, List.length_drop, List.length_cons] at *; omega
+      · refine ih _ (x :: cur) acc hacc ?_
+        simp only [List.length_cons] at *; omega
+
+theorem splitStr_len (pat s : Bytes) : ∀ x ∈ (splitStr pat s).toList, x.length ≤ s.length := by
+  unfold splitStr
+  exact splitStrAcc_len pat s.length _ s [] #[] (fun x hx => by simp at hx) (by simp)
+
+theorem splitCharAcc_size (sep : UInt8) : ∀ (l cur : Bytes) (acc : Array Bytes),
+    (splitCharAcc sep l cur acc).size ≤ acc.size + l.length + 1 := by
+  intro l
+  induction l with
+  | nil => intro cur acc; simp [splitCharAcc]
+  | cons x r ih =>
+    intro cur acc
+    unfold splitCharAcc
+    split
+    · have := ih [] (acc.push cur.reverse)
+      simp only [Array.size_push, List.length_cons] at *; omega
+    · have := ih (x :: cur) acc
+      simp only [List.length_cons] at *; omega
+
+theorem splitChar_size (sep : UInt8) (s : Bytes) : (splitChar sep s).size ≤ s.length + 1 := by
+  have := splitCharAcc_size sep s [] #[]
+  simp only [Array.size_empty] at this
+  unfold splitChar; omega
+
+theorem safe_rows {B L : Nat} (k : Kind) (parts : Array Bytes)
+    (hL : ∀ x ∈ parts.toList, x.length ≤ L) (hB : 32 * (L + 1) ≤ B) :
+    ∀ (n i : Nat), (n = 0 ∨ i + n ≤ parts.size) → Safe B (rows true k parts n i) (fun _ => True) := by
+  intro n
+  induction n with
+  | zero => intro i _; exact Safe.pure trivial
+  | succ n ih =>
+    intro i hi
+    unfold rows
+    have hlt : i < parts.toList.length := by simp only [Array.length_toList]; omega
+    refine Safe.bind (Q := fun row => row.length ≤ L) ?_ (fun row hrow => ?_)
+    · simp only [Sl.index, List.getElem?_eq_getElem hlt]
+      exact Safe.pure' (hL _ (List.getElem_mem hlt))
+    · have hs := splitChar_size 0x09 row
+      refine Safe.bind (Safe.alloc (by omega)) (fun _ _ => ?_)
+      simp only [if_true]
+      split
+      · refine Safe.bind (ih (i + 1) (by omega)) (fun _ _ => Safe.pure trivial)
+      · exact ih (i + 1) (by omega)
+
+theorem safe_fromParts {B L : Nat} (k : Kind) (parts : Array Bytes)
+    (hL : ∀ x ∈ parts.toList, x.length ≤ L) (hB : 32 * (L + 1) ≤ B) (hP : 32 * parts.size ≤ B) :
+    Safe B (fromParts true k parts) (fun _ => True) := by
+  unfold fromParts
+  refine Safe.bind (Safe.alloc hP) (fun _ _ => ?_)
+  refine Safe.bind (Q := fun hi => hi = parts.size - 2) ?_ (fun hi hhi => ?_)
+  · unfold rowsEnd; simp only [if_true]; exact Safe.pure rfl
+  · exact safe_rows k _ hL hB _ _ (by omega)
+
+theorem safe_fromString (k : Kind) (s : Bytes) :
+    Safe (budget s.length) (fromString true k s) (fun _ => True) := by
+  unfold fromString
+  have hsz := splitStr_size crlf s
+  exact safe_fromParts k _ (splitStr_len crlf s) (by unfold budget; omega) (by unfold budget; omega)
+
+theorem safe_total {B : Nat} : ∀ (ps : List PatchEntry) (t : Int), Safe B (total true ps t) (fun _ => True) := by
+  intro ps
+  induction ps with
+  | nil => intro t; exact Safe.pure trivial
+  | cons p r ih => intro t; unfold total; simp only [if_true]; exact ih _
+
+theorem safe_hashPart {B : Nat} (k : Kind) (p : PatchEntry) : Safe B (hashPart true k p) (fun _ => True) := by
+  unfold hashPart
+  cases k
+  · exact Safe.pure trivial
+  · simp only [if_true]; exact Safe.pure trivial
+
+theorem safe_entryLine {B : Nat} (k : Kind) (p : PatchEntry) : Safe B (entryLine true k p) (fun _ => True) := by
+  unfold entryLine
+  exact Safe.bind (safe_hashPart k p) (fun _ _ => Safe.pure trivial)
+
+theorem safe_entryLines {B : Nat} (k : Kind) : ∀ ps : List PatchEntry, Safe B (entryLines true k ps) (fun _ => True) := by
+  intro ps
+  induction ps with
+  | nil => exact Safe.pure trivial
+  | cons p r ih =>
+    unfold entryLines
+    exact Safe.bind (safe_entryLine k p) (fun _ _ => Safe.bind ih (fun _ _ => Safe.pure trivial))
+
+theorem safe_toString {B : Nat} (k : Kind) (id loc : Bytes) (ps : List PatchEntry) :
+    Safe B (toString true k id loc ps) (fun _ => True) := by
+  unfold toString
+  exact Safe.bind (safe_total ps 0) (fun _ _ => Safe.bind (safe_entryLines k ps) (fun _ _ => Safe.pure trivial))
+
+end Patchlist
+
 end Physis.F
